@@ -201,8 +201,11 @@ class Req:
     """one generic derive request.  kind struct|enum|union; params: list of (kind, name, inline_bound, default);
        variants: [(name, kind, [Field], default_marker?)]; traits: list of (trait, bound_mode) with bound_mode None|'*'|False|'T: X'"""
 
-    def __init__(self, rid, kind, params, variants, traits, where=None, hand=(), note=''):
+    def __init__(self, rid, kind, params, variants, traits, where=None, hand=(), note='', topt=None, vattr=None, wstyle='plain'):
         self.rid = rid
+        self.wstyle = wstyle       # spelling of the user's where-clause: plain | trailing (comma after the last predicate) | bare (`where` with no predicate)
+        self.topt = topt or {}     # trait -> extra type-level parameter text that does not concern bounds (e.g. Debug: 'named_field = false')
+        self.vattr = vattr or {}   # variant name -> extra `#[educe(..)]` text on that variant
         self.kind = kind
         self.params = params
         self.variants = variants
@@ -271,9 +274,15 @@ class Req:
                 ps.append('unsafe')
             if mode is not None:
                 ps.append(bound_text(mode))
+            if tr in self.topt:
+                ps.append(self.topt[tr])
             items.append(tr + (f'({", ".join(ps)})' if ps else ''))
         s = ('#[derive(Educe)]\n' if with_derive else '') + f'#[educe({", ".join(items)})]\n'
         wh = f' where {self.where}' if self.where else ''
+        if self.where and self.wstyle == 'trailing':
+            wh += ','
+        if not self.where and self.wstyle == 'bare':
+            wh = ' where'
         hdr = self.header()
         if self.kind == 'struct':
             vn, vk, fs, _ = self.variants[0]
@@ -290,6 +299,8 @@ class Req:
             vs = []
             for vn, vk, fs, dm in self.variants:
                 at = '#[educe(Default)] ' if dm else ''
+                if vn in self.vattr:
+                    at += f'#[educe({self.vattr[vn]})] '
                 if vk == 'unit':
                     vs.append(at + vn)
                 elif vk == 'tuple':
@@ -330,6 +341,8 @@ def delegated_fields(req, tr, educed):
         for vn, vk, fs, dm in vs:
             out += [f.term for f in fs if f.roles.get('Default') != 'expr']
         return out
+    if req.kind == 'union' and tr in ('Debug', 'PartialEq', 'Hash'):
+        return []   # byte-wise over size_of::<Self>() (C20): no field is delegated to
     for vn, vk, fs, dm in req.variants:
         for f in fs:
             if tr in ('Copy',) or (tr == 'Eq' and 'PartialEq' not in educed):
@@ -595,6 +608,15 @@ def c11_corpus(tier, seed):
         add('struct', tparams(['T', 'U']), [('S', 'named', [Field(PH(T)), Field(U)], False)], [(tr, None)])
         add('struct', [], [('S', 'unit', [], False)], [(tr, None)])
         add('enum', tparams(['T', 'U']), [('A', 'unit', [], False), ('B', 'tuple', [Field(PAIR(T, OPT(U)))], False)], [(tr, None)])
+    # Debug presentation options select different field loops in the handlers; none of them concerns bounds
+    for role in ['ignore', 'method']:
+        add('struct', tparams(['T', 'U']), [('S', 'named', [Field(T), Field(U, Debug=role)], False)], [('Debug', None)], topt={'Debug': 'named_field = false'})
+        add('struct', tparams(['T', 'U']), [('S', 'tuple', [Field(U, Debug=role), Field(OPT(T))], False)], [('Debug', None)], topt={'Debug': 'named_field = true'})
+        add('struct', tparams(['T', 'U']), [('S', 'named', [Field(U, Debug=role), Field(T)], False)], [('Debug', None)], topt={'Debug': 'name = false'})
+        add('enum', tparams(['T', 'U', 'V']), [('A', 'named', [Field(T), Field(U, Debug=role)], False), ('B', 'tuple', [Field(V, Debug=role), Field(PH(U))], False)], [('Debug', None)],
+            vattr={'A': 'Debug(named_field = false)', 'B': 'Debug(named_field = true)'})
+        add('enum', tparams(['T', 'U', 'V']), [('A', 'named', [Field(V, Debug=role), Field(T)], False), ('B', 'tuple', [Field(U, Debug=role), Field(PH(V)), Field(PH(U))], False)], [('Debug', None)],
+            vattr={'A': 'Debug(name = false)', 'B': 'Debug(name = Bee)'}, topt={'Debug': 'name = true'})
     # Eq next to PartialEq (companion), attributes carried by Eq(..)
     add('struct', tparams(['T', 'U']), [('S', 'named', [Field(T), Field(U, Eq='ignore')], False)], [('PartialEq', None), ('Eq', None)])
     add('enum', tparams(['T', 'U']), [('A', 'tuple', [Field(T, PartialEq='method'), Field(OPT(U))], False), ('B', 'unit', [], False)], [('PartialEq', None), ('Eq', None)])
@@ -658,7 +680,16 @@ def c11_corpus(tier, seed):
             if kind == 'struct':
                 vn, vk, fs, dm = vs[0]
                 vs = [(vn, 'tuple' if vk == 'unit' else vk, list(fs) + [Field(PH(PAIR(T, PAIR(U, V))))], dm)]
-            add(kind, tparams(['T', 'U', 'V']), vs, [(tr, None)])
+            kw = {}
+            if tr == 'Debug':
+                opts = [None, 'named_field = false', 'named_field = true', 'name = false']
+                if kind == 'struct':
+                    o = rng.choice(opts)
+                    if o:
+                        kw['topt'] = {'Debug': o}
+                else:
+                    kw['vattr'] = {vn: f'Debug({o})' for vn, vk, _, _ in vs for o in [rng.choice(opts)] if o and vk != 'unit'}
+            add(kind, tparams(['T', 'U', 'V']), vs, [(tr, None)], **kw)
     return reqs
 
 
@@ -723,6 +754,27 @@ def c12_corpus(tier, seed):
     add('enum', CN, [('A', 'tuple', [Field(ARRN)], True), ('B', 'unit', [], False)], [('Default', None), ('Debug', ('list', '[u8; N]: ::core::fmt::Debug'))])
     add('struct', LA, [('S', 'tuple', [Field(LTPH), Field(U8)], False)], [('Debug', ('list', "'a: 'static")), ('PartialEq', ('str', "'a: 'static"))])
     add('struct', LA + CN, [('S', 'tuple', [Field(LTPH), Field(ARRN)], False)], [('Hash', ('list', "'a: 'static, [u8; N]: ::core::hash::Hash")), ('Clone', '*')])
+    # spellings of the user's where-clause (trailing comma as rustfmt writes it; bare `where`): every handler must still emit a well-formed header
+    HAND = {'PartialOrd': ['PartialEq'], 'Ord': ['PartialEq', 'Eq', 'PartialOrd'], 'Eq': ['PartialEq'], 'Copy': ['Clone']}
+    k = 0
+    for tr in ['Debug', 'Clone', 'Copy', 'PartialEq', 'Eq', 'PartialOrd', 'Ord', 'Hash', 'Default', 'Into', 'Deref']:
+        for kind in ['struct', 'enum', 'union']:
+            if kind == 'union' and tr in ('Eq', 'PartialOrd', 'Ord', 'Into', 'Deref'):
+                continue
+            for wstyle in ['trailing', 'bare']:
+                k += 1
+                mode = None if (k % 2 or tr in ('Deref', 'Copy', 'Eq') or kind == 'union') else ('list', 'T: ' + TPATH.get(tr, '::core::convert::Into<u8>'))
+                inl = {'T': 'Copy', 'U': 'Copy'} if kind == 'union' else {}
+                first = Field(T, **({'Into': 'into'} if tr == 'Into' else {'Deref': 'marker', 'DerefMut': 'marker'} if tr == 'Deref' else {'Default': 'marker'} if (tr == 'Default' and kind == 'union') else {}))
+                traits = [(tr, mode)] if tr != 'Deref' else [('Deref', None), ('DerefMut', None)]
+                where = 'T: Marker2' if wstyle == 'trailing' else None
+                if kind == 'struct':
+                    vs = [('S', 'named' if k % 4 < 2 else 'tuple', [first, Field(PH(U))], False)]
+                elif kind == 'union':
+                    vs = [('S', 'named', [first, Field(U)], False)]
+                else:
+                    vs = [('A', 'tuple', [first, Field(PH(U))], tr == 'Default')] + ([('B', 'unit', [], False)] if tr not in ('Into', 'Deref') else [('B', 'named', [Field(T, **first.roles), Field(U)], False)])
+                add(kind, tparams(['T', 'U'], inl), vs, traits, hand=HAND.get(tr, []) if kind != 'union' else ([] if tr != 'Copy' else ['Clone']), where=where, wstyle=wstyle)
     # auto mode on rich headers: header must still be reproduced
     for tr in ['Debug', 'Clone', 'PartialEq', 'Hash', 'Default']:
         add('struct', rich, [('S', 'named', [Field(T), Field(PH(U)), Field(U8)], False)], [(tr, None)], where='T: Marker2')
@@ -1057,6 +1109,8 @@ def main(prop, tier, seed, keep=False):
     rng = random.Random(seed * 977 + 1)
     for i, (req, tr, mode, inst, f_says) in enumerate(sat_cases[:12]):
         pr.add_req(req, f'v{i}')
+        if 'Marker' in req.header() or 'Marker' in (req.where or ''):
+            inst = {p: ts + ['Marker'] for p, ts in inst.items()}   # the header's own marker bounds are assumed by the query (well-formedness)
         args = {p: pr.argtype(ts) for p, ts in inst.items()}
         tpath = TPATH['IntoU8'] if tr == 'Into' else TPATH['IntoU16'] if tr == 'Into16' else (TPATH.get(tr) or f'::core::ops::{tr}')
         lab = f'sat:{i}'
